@@ -1551,7 +1551,7 @@ fn depth_sweep(ctx: &Ctx) -> Report {
             (true, false) => vec![100, 1_000, 5_000, 20_000],
             (true, true) => vec![100, 1_000, 3_000, 6_000],
             (false, false) => vec![100, 300, 1_000, 2_500, 5_000, 10_000, 20_000, 50_000, 100_000],
-            (false, true) => vec![100, 300, 1_000, 2_500, 5_000, 10_000, 20_000],
+            (false, true) => vec![100, 300, 1_000, 2_500, 5_000, 10_000],
         }
     };
     // one job per (kind, api): walk up the ladder, then bisect to the smallest failing depth
@@ -1685,7 +1685,11 @@ fn main() {
     let per_corpus = ctx.scale(10, 25);
     let n_sem = ctx.scale(200, 4_000) as u64;
     if want("sem") {
-        rep.merge(run_cases(&ctx, "sem", n_sem, |c, rng, rep| sem_case(c, rng, rep, per_corpus)));
+        // on a loaded host the soft deadline must not be spent on one stream: the semantic stream
+        // may use the first 45 % of it
+        let mut ctx_sem = ctx.clone();
+        ctx_sem.deadline = ctx.deadline * 45 / 100;
+        rep.merge(run_cases(&ctx_sem, "sem", n_sem, |c, rng, rep| sem_case(c, rng, rep, per_corpus)));
         shutdown_pool();
     }
     let n_total = std::env::var("C16_TOTAL_N")
@@ -1709,7 +1713,7 @@ fn main() {
         &ctx,
         rep,
         "total: case = one generated string (classes: random UTF-8, lossy byte soup, metacharacter soup, valid queries, their mutations, every prefix of one, unbalanced quotes/brackets, splices, keyword/whitespace variants, long inputs up to 1 MB, nesting <= 200) fed - inside memory-capped worker processes, so that hangs, unbounded allocation and stack overflows are survivable and attributable - to grammar parse_query/parse_query_lenient and to 4 QueryParser configurations (strict + lenient); non-trivial = the string contains grammar metacharacters/keywords; distinct = input class x character-class skeleton (first 28). sem: case = one corpus (1-40 docs, 1-2 segments, every field type, typed fields INDEXED or INDEXED|FAST) with 10/25 abstract queries, each printed with random whitespace/escaping/quoting/case/redundant parentheses/boosts, parsed in disjunction and conjunction mode and compared (Count and DocSetCollector via the id fast field) with a naive evaluation on the model documents, failing queries are shrunk; non-trivial = accepted by both parsers with the expected match set; distinct = set of grammar features in the query. depth: child-process sweeps of 6 nesting shapes x 4 entry points on an 8 MB main-thread stack.",
-        ctx.scale(500, 20_000),
+        ctx.scale(500, 5_000),
         &[
             "documented grammar = doc comment of tantivy::query::QueryParser; only forms it defines are generated in the semantic stream (NOT only as a synonym of '-' inside an occur list, as the grammar crate's own tests define it; field:* (exists) only at syntax-tree level and field:(group) only in the totality stream because QueryParser does not document them; a query made only of excluded clauses must be rejected with AllButQueryForbidden)",
             "meaning-preserving noise = blanks/tabs/newlines between operands and after ':' (only blanks before ':'), a literal blank after AND/OR/NOT, bare words with backslash escapes or single/double quotes with redundant escapes, ASCII case changes on tokenized text, redundant parentheses, boosts",
